@@ -244,7 +244,29 @@ fn nested_case(r: &mut Prng) -> Case {
     let (prog, funcs) = inner_prog.unwrap();
     case.slots[0].funcs.extend(funcs);
     case.slots[0].vars.push(("v".into(), Val::int(100)));
-    case.pre.push(Op::Exec { prog: Prog::Stmts(vec![bin("=", rf("r"), prog), rf("r")]), ctx: CtxRef::Slot(0) });
+    let eval = Op::Exec { prog: Prog::Stmts(vec![bin("=", rf("r"), prog), rf("r")]), ctx: CtxRef::Slot(0) };
+    if r.chance(1, 3) {
+        // swarm flag: a bystander thread registers and evaluates (independent names) while the
+        // re-entrant evaluation runs
+        case.tag = "nested+bystander".into();
+        let hf = marker(&mut case, HKind::Func);
+        let hp = marker(&mut case, HKind::Prefix);
+        let hi = marker(&mut case, HKind::Infix);
+        let hq = marker(&mut case, HKind::Postfix);
+        let mut by = vec![
+            Op::RegFn { name: "bz_f".into(), h: hf },
+            Op::RegPre { name: "bz_p".into(), h: hp },
+            Op::RegIn { name: "bz_i".into(), prec: 115, setter: false, right: false, h: hi },
+            Op::RegPost { name: "bz_q".into(), h: hq },
+            Op::Exec { prog: Prog::one(bin("+", lit_i(1), lit_i(2))), ctx: CtxRef::Fresh(CtxSpec::empty()) },
+        ];
+        r.shuffle(&mut by);
+        by.truncate(1 + r.usize(5));
+        case.threads.push(vec![eval]);
+        case.threads.push(by);
+    } else {
+        case.pre.push(eval);
+    }
     case.post.push(Op::CtxDump { slot: 0 });
     case.post.push(Op::Exec { prog: Prog::one(bin("+", rf("x"), lit_i(1))), ctx: CtxRef::Slot(0) });
     case
@@ -270,14 +292,15 @@ impl Prop for C14 {
                    bare name} x re-entrant action {parse_expression, execute on a new context, register_function/prefix/infix/postfix, and for context \
                    functions: lock the evaluating context's handle and read / write it / evaluate on a Context sharing it / dump it} x program position {root, \
                    nested operand, then-branch, else-branch} = 176 cases, all run on every invocation; sampled part: seeded chains of 2..4 re-entrant \
-                   handlers each evaluating a program that invokes the next. One simulated caller, fresh simulated process per case. evaluations = simulated \
+                   handlers each evaluating a program that invokes the next, in a third of them with a bystander thread that registers and evaluates concurrently \
+                   (seeded schedules). Fresh simulated process per case. evaluations = simulated \
                    executions; distinct_nontrivial = distinct cases in which at least one re-entrant action was actually performed inside a handler",
             assumptions: &[
                 "re-acquisition of a lock by its holder and all-tasks-blocked are reported by the simulator's mutex/scheduler at the exact lock operation (a real std mutex would hang)",
                 "the handler's return value is a constant, so the outer result must equal that of the same program with plain handlers; inner results come from the reference model",
             ],
-            fault_kinds: &["reenter_parse", "reenter_execute", "reenter_register", "reenter_ctx_lock", "fresh_process"],
-            probes: &["matrix_cells_run", "nesting_depth_3_or_more", "inner_registration_used_later", "bare_name_locks_own_context"],
+            fault_kinds: &["reenter_parse", "reenter_execute", "reenter_register", "reenter_ctx_lock", "preempt_in_call", "fresh_process"],
+            probes: &["matrix_cells_run", "nesting_depth_3_or_more", "inner_registration_used_later", "bare_name_locks_own_context", "bystander_registers_during_reentrant_evaluation"],
         }
     }
 
@@ -309,6 +332,18 @@ impl Prop for C14 {
         }
         let out = rt.sim(&case, &SchedSpec::Lowest);
         rt.fired("fresh_process", 1);
+        if case.threads.len() > 1 {
+            rt.probe("bystander_registers_during_reentrant_evaluation");
+            let mut sr = Prng::derive(seed, "C14.sched", idx);
+            for j in 1..6 {
+                let spec = crate::props::c13::schedule_for(&mut sr, j, out.rec.decisions);
+                let o = rt.sim(&case, &spec);
+                rt.fired("preempt_in_call", o.rec.preemptions as u64);
+                if let Some((c, d)) = judge(&case, &o, rt) {
+                    return vec![violation("C14", &c, d, seed, idx, &case, &o)];
+                }
+            }
+        }
         let mut acts = 0;
         let mut max_depth = 0usize;
         for e in &out.log {
